@@ -157,7 +157,10 @@ impl Context {
         loop {
             changed = false;
             for (i, set) in self.regex_sets.iter().enumerate() {
-                for idx in set.matches(s).into_iter() {
+                // Look for macro names in the text as expanded so far: a replacement may
+                // introduce the name of another macro
+                let matches: Vec<usize> = set.matches(&res).into_iter().collect();
+                for idx in matches {
                     let x = self.regexes[i][idx]
                         .0
                         .replace_all(&res, &self.regexes[i][idx].1);
